@@ -2049,12 +2049,15 @@ impl<const N: usize, T> Default for CircularBuffer<N, T> {
 }
 
 impl<const N: usize, const M: usize, T> From<[T; M]> for CircularBuffer<N, T> {
-    fn from(mut arr: [T; M]) -> Self {
+    fn from(arr: [T; M]) -> Self {
+        // The elements of `arr` are either moved into the buffer or dropped in place below: make
+        // sure that `arr` itself never drops them, not even if a destructor panics
+        let mut arr = mem::ManuallyDrop::new(arr);
         #[cfg(feature = "unstable")]
         let mut elems = [const { MaybeUninit::uninit() }; N];
         #[cfg(not(feature = "unstable"))]
         let mut elems = unsafe { MaybeUninit::<[MaybeUninit<T>; N]>::uninit().assume_init() };
-        let arr_ptr = &arr as *const T as *const MaybeUninit<T>;
+        let arr_ptr = arr.as_ptr() as *const MaybeUninit<T>;
         let elems_ptr = &mut elems as *mut MaybeUninit<T>;
         let size = if N >= M { M } else { N };
 
@@ -2067,21 +2070,22 @@ impl<const N: usize, const M: usize, T> From<[T; M]> for CircularBuffer<N, T> {
             ptr::copy_nonoverlapping(arr_ptr.add(M - size), elems_ptr, size);
         }
 
-        // Prevent destructors from running on those elements that we've taken ownership of; only
-        // destroy the elements that were discareded
-        //
-        // SAFETY: All elements in `arr` are initialized; `forget` will make sure that destructors
-        // are not run twice
-        unsafe {
-            ptr::drop_in_place(&mut arr[..M - size]);
-        }
-        mem::forget(arr);
-
-        Self {
+        let buf = Self {
             size,
             start: 0,
             items: elems,
+        };
+
+        // Prevent destructors from running on those elements that we've taken ownership of; only
+        // destroy the elements that were discareded
+        //
+        // SAFETY: All elements in `arr` are initialized; `ManuallyDrop` makes sure that
+        // destructors are not run twice
+        unsafe {
+            ptr::drop_in_place(&mut arr[..M - size]);
         }
+
+        buf
     }
 }
 
